@@ -523,17 +523,17 @@ def run(repo, check):
     check.run_rule(rule_r6, repo)
     check.run_rule(rule_recall, repo)
     check.run_rule(rule_pipeline_links, repo)
-    r7 = c09.rule_r1(repo, 'C07.R7')
+    r7 = check.call(c09.rule_r1, repo, 'C07.R7')
     r7.title = 'coder / wirer lockstep (shared with C09.R1): attributes attach to the right flat entries only if both sides count alike'
     check.add(r7)
     from sa.rules import c06, c08
-    r8 = c06.rule_r1(repo)
+    r8 = check.call(c06.rule_r1, repo)
     r8.rule = 'C07.R8'
     r8.title = 'bitmap and back-reference bookkeeping is re-initialised for every subset (shared with C06.R1)'
     for f in r8.findings:
         f.rule = 'C07.R8'
     check.add(r8)
-    r9 = c08.rule_r6(repo, 'quick', only_bitmap=True)
+    r9 = check.call(c08.rule_r6, repo, 'quick', only_bitmap=True)
     r9.rule = 'C07.R9'
     r9.title = 'compiled templates keep the bitmap bookkeeping of the plain walk (bitmap templates of C08.R6)'
     for f in r9.findings:
